@@ -207,6 +207,29 @@ CHECKS = {
        "and every breakdown value must be labelled.",
   note="Bare task histories that leave a CPU 'in a task body without a task' are ambiguous and not generated. Rewrites "
        "of unchanged rows are invisible in the .prv (duplicate suppression) and are decided on the module."),
+ "C09": dict(
+  cat="fault_enumeration", ref="DESIGN.md section 3, C09",
+  technique="runtime monitoring with crash injection: strace SIGKILL on entry to every file system call of the runtime (enumerated from a baseline of the same deterministic run), final directory decoded and compared with the client-boundary flush log, ovniemu verdict",
+  text="The rtdrv driver runs deterministic conformant scripts (explicit flushes, an automatic flush, metadata flush; "
+       "single thread exhaustively, three threads sampled and repeated) in direct mode and with OVNI_TMPDIR on tmpfs and "
+       "on ext4. A strace baseline lists every file system call the runtime makes on the trace and temporary directories; "
+       "each (call, occurrence) becomes one run in which strace kills the process on entry to that call, so every on-disk "
+       "state between two system calls is visited. After the kill: a stream whose metadata in the final directory says "
+       "finished must hold, in that directory, every event the thread had flushed (emit log), and ovniemu must not exit 0 "
+       "while a visible stream lacks flushed events. Runs whose injection did not fire are inconclusive.",
+  note="Process kill, not power loss. Exhaustive over the kill points of the scripts run, not over all programs."),
+ "C10": dict(
+  cat="fault_enumeration", ref="DESIGN.md section 3, C10",
+  technique="runtime monitoring with fault injection: strace error injection into every file system call of the runtime, one failure per run, abort-or-complete oracle over exit status, stderr, both directories, the emit log and ovniemu -l",
+  text="For every (file system call, occurrence) of the baseline of each deterministic single-thread script, with and "
+       "without OVNI_TMPDIR, one run per error code (ENOSPC, EIO, EACCES; EEXIST/ENOTDIR for mkdir; EMFILE for open; "
+       "EBUSY for unlink/rmdir) makes exactly that call fail, plus runs with genuine partial writes. If the driver "
+       "returns normally, every stream in the final directory must equal the emit log byte for byte, be marked finished "
+       "and the trace be accepted by ovniemu -l; otherwise it must have terminated with a diagnostic. Whatever the "
+       "outcome, a thread that reached relocation must still have a complete copy of its stream in the temporary or the "
+       "final directory.",
+  note="Single-threaded so that exactly one call fails (strace counters are per thread). Long runs of identical 4 KiB "
+       "copy calls are sampled."),
 }
 
 NOT_YET = "check not implemented yet in this revision (work in progress, see DESIGN.md section 3)"
